@@ -171,14 +171,15 @@ def epoch_spec(prop, tier):
     q = tier == "quick"
     if prop == "C04":
         if q:
-            return [ep(1, ("pin1", "recycle", "recreate", "gen1s"), -1), ep(1, ("reuse",), 3), ep(2, ("pin1",), -1), ep(2, ("pin2", "reuse"), 2)]
+            return [ep(1, ("pin1", "recycle", "recreate", "gen1s"), -1), ep(1, ("reuse", "twomgr"), 3), ep(2, ("pin1",), -1), ep(2, ("pin2", "reuse"), 2)]
         return [ep(1, ("pin1", "recycle", "recreate", "gen1"), -1, 900, 600), ep(1, ("reuse",), 6, 600, 600), ep(2, ("pin1", "recycle"), -1, 900, 900),
                 ep(2, ("pin2", "public", "gen2"), 4, 900, 900), ep(2, ("reuse",), 3, 900, 900), ep(3, ("pin2", "public"), 3, 600, 600)]
     if prop == "C16":
         if q:
-            return [ep(1, ("obs", "pin1", "moves", "gen1s"), -1), ep(2, ("obs", "moves"), 2),
+            return [ep(1, ("obs", "pin1", "moves", "gen1s"), -1), ep(1, ("twomgr",), 2), ep(2, ("obs", "moves"), 2),
                     ep(2, (), 0, 60, 30, ("--histories", "6"), "sequential histories depth 6")]
-        return [ep(1, ("obs", "pin1", "moves", "list1", "gen1q"), -1, 900, 600), ep(2, ("obs", "pin1", "pin2", "moves", "gen2"), 4, 900, 900),
+        return [ep(1, ("obs", "pin1", "moves", "list1", "gen1q"), -1, 900, 600), ep(1, ("twomgr",), 4, 600, 600),
+                ep(2, ("obs", "pin1", "pin2", "moves", "gen2", "twomgr"), 4, 900, 900),
                 ep(2, (), 0, 900, 120, ("--histories", "8"), "sequential histories depth 8")]
     if prop == "C17":
         if q:
